@@ -242,6 +242,13 @@ func Y(site uint32) {
 			forceGC()
 		}
 	}
+	if nvtimers > 0 && stepN&255 == 0 && faults.ClockJump && frng.next()%16 == 0 {
+		// clock fault: time passes while the tasks are busy, and the timer due
+		// first (a deadline, an expiry callback, a tick) fires right here, in the
+		// middle of whatever the current task is doing
+		stats.ClockJumps++
+		fireEarliestTimer()
+	}
 	if int(site) < len(SiteHits) {
 		SiteHits[site]++
 	}
@@ -902,14 +909,21 @@ func Escaped() any { return escaped }
 // Go replaces the `go` statement in instrumented library code.
 func Go(f func()) {
 	if !Active() {
-		// Outside a simulated run (pool construction, reference tables, the
-		// fidelity gate) goroutines are real; they must be gone before a run
-		// starts, because a goroutine that is not a task cannot take turns.
-		foreignLive.Add(1)
-		go func() {
-			defer foreignLive.Add(-1)
-			f()
-		}()
+		switch procMode {
+		case 0:
+			// package initialisation, before main has said what kind of process
+			// this is: decided in StartPending
+			pendingGo = append(pendingGo, f)
+		case 1:
+			adoptOutside(f)
+		default:
+			// real-goroutine engine (and anything else outside the simulator)
+			foreignLive.Add(1)
+			go func() {
+				defer foreignLive.Add(-1)
+				f()
+			}()
+		}
 		return
 	}
 	id := spawn(false)
@@ -918,6 +932,54 @@ func Go(f func()) {
 	}
 	joinWG.Add(1)
 	go runTask(id, f)
+}
+
+var (
+	procMode  int // 0 undecided, 1 simulator process, 2 real goroutines
+	pendingGo []func()
+)
+
+// StartPending tells the runtime what kind of process this is and starts the
+// goroutines the library asked for during package initialisation. In the
+// simulator process a goroutine started outside a run (an init-time worker)
+// becomes a parked task that the first run takes over, exactly like a library
+// goroutine that outlived an earlier run; elsewhere it is a real goroutine.
+func StartPending(simulator bool) {
+	procMode = 2
+	if simulator {
+		procMode = 1
+	}
+	p := pendingGo
+	pendingGo = nil
+	for _, f := range p {
+		Go(f)
+	}
+}
+
+// adoptOutside registers f as a parked library task (persist, parked): it starts
+// executing when a run schedules it.
+func adoptOutside(f func()) {
+	id := spawnParked()
+	if id < 0 {
+		// no room: fall back to a real goroutine, which a run will refuse
+		foreignLive.Add(1)
+		go func() {
+			defer foreignLive.Add(-1)
+			f()
+		}()
+		return
+	}
+	go runTask(id, f)
+}
+
+//go:norace
+func spawnParked() int32 {
+	id := spawn(false)
+	if id >= 0 {
+		tasks[id].persist = true
+		tasks[id].parked = true
+	}
+	return id
 }
 
 //go:norace
@@ -1026,7 +1088,9 @@ func reset(s Sched, f Faults) {
 		}
 	}
 	resetPools()
-	if nsurvivors == 0 {
+	if nsurvivors > 0 {
+		compactChans()
+	} else {
 		// with survivors the channels, timers and contexts they wait on live on
 		resetChans()
 		resetTimers()
